@@ -339,6 +339,11 @@ class Runner:
                 nxt = self.interp(ops, i + 1)
         except SimFault as f:
             fault = f
+        except (Violation, HarnessError):
+            raise
+        except Exception as e:
+            raise Violation("context-exit-raises" if entered else "context-enter-raises",
+                            "%s_units(%r) entered at op %d: %s: %s" % (utype, u, i, type(e).__name__, e))
         if not entered:
             raise HarnessError("units context not entered")
         t, backup = self.stack.pop()
